@@ -3,8 +3,9 @@ import itertools
 
 import numpy as np
 
-from mc.harness import Result, Sub
+from mc.harness import Result, Sub, digest
 from mc.lammps_text import bounds_of, frame_text
+from mc.ref import c01x
 
 ASSUMPTIONS = [
     "all numbers are dyadic (multiples of 2^-4) so the LAMMPS conventions can be evaluated exactly; comparison atol 1e-12",
@@ -13,6 +14,9 @@ ASSUMPTIONS = [
     "wrapped style in triclinic cells and scaled coordinates outside [0,1] are outside the property and not generated",
     "a wrapped coordinate lying exactly on a box face may be returned on either face (lo == hi under periodicity)",
     "2D files carry the third (dummy z) bounds line and coordinate columns 'x y' only",
+    "scale slice: atom ids are 1..N of the frame (N may change from frame to frame); fractional coordinates are odd multiples of 2^-21 "
+    "(distinct per id), so all LAMMPS conventions are still evaluated exactly in double precision; real LAMMPS files end the ATOMS line and "
+    "every atom line with a blank - such files are well-formed; a file that is re-written under the same name between two reads is a new input",
 ]
 
 TS = [0, 25, 1234567890]
@@ -135,6 +139,44 @@ def gen_vary(tier, seed):
                                "flags": "pp pp pp", "vary": vary}
 
 
+def compare(R, tag, S, exps, style, tri, sig):
+    """every field of every snapshot against the expectations; False when the frame count is already wrong"""
+    if S.nsnapshots != len(exps) or len(S.snapshots) != len(exps):
+        R.fail(f"{tag}: {S.nsnapshots} snapshots for {len(exps)} frames", sig=dict(sig, clause="frames"))
+        return False
+    for f, (snap, exp) in enumerate(zip(S.snapshots, exps)):
+        if snap.timestep != exp["timestep"] or snap.nparticle != exp["nparticle"]:
+            R.fail(f"{tag} frame {f}: timestep/nparticle {snap.timestep}/{snap.nparticle} != {exp['timestep']}/{exp['nparticle']}",
+                   sig=dict(sig, clause="frames"))
+            continue
+        if list(np.asarray(snap.particle_type)) != exp["particle_type"]:
+            R.fail(f"{tag} frame {f}: types by id {list(snap.particle_type)} != {exp['particle_type']}", sig=dict(sig, clause="types"))
+        pos = np.asarray(snap.positions, float)
+        ok = pos.shape == exp["positions"].shape
+        if ok:
+            dev = np.abs(pos - exp["positions"])
+            if style == "x" and not tri:
+                # a wrapped coordinate exactly on a box face may be reported on either face (both are inside the box)
+                lo_, hi_ = exp["boxbounds"][:, 0], exp["boxbounds"][:, 1]
+                onface = (exp["positions"] == lo_) | (exp["positions"] == hi_)
+                alt = np.minimum(np.abs(pos - lo_), np.abs(pos - hi_))
+                dev = np.where(onface, alt, dev)
+            ok = bool((dev <= 1e-12).all())
+        if not ok:
+            clause = {"x": "wrap" if not tri else "positions", "xs": "scaled", "xu": "unwrapped"}[style]
+            R.fail(f"{tag} frame {f}: positions by id differ", sig=dict(sig, clause=clause), exp=exp["positions"], obs=pos)
+        for key in ("boxlength", "boxbounds", "hmatrix", "realbounds"):
+            got = getattr(snap, key)
+            want = exp[key]
+            if want is None:
+                if got is not None:
+                    R.fail(f"{tag} frame {f}: {key} should be None for an orthogonal cell", sig=dict(sig, clause="cell_" + key))
+                continue
+            if got is None or np.asarray(got).shape != want.shape or not np.allclose(np.asarray(got, float), want, rtol=0, atol=1e-12):
+                R.fail(f"{tag} frame {f}: {key} differs", sig=dict(sig, clause="cell_" + key), exp=want, obs=got)
+    return True
+
+
 def run(case):
     from PyMatterSim.reader.dump_reader import DumpReader
     from PyMatterSim.reader.lammps_reader_helper import read_lammps_wrapper
@@ -165,41 +207,79 @@ def run(case):
     s1 = rd.snapshots
     s2 = read_lammps_wrapper("c01.dump", d)
     for tag, S in (("DumpReader", s1), ("wrapper", s2)):
-        if S.nsnapshots != len(exps) or len(S.snapshots) != len(exps):
-            R.fail(f"{tag}: {S.nsnapshots} snapshots for {len(exps)} frames", sig=dict(sig, clause="frames"))
+        if not compare(R, tag, S, exps, case["style"], tri, sig):
             return R
-        for f, (snap, exp) in enumerate(zip(S.snapshots, exps)):
-            if snap.timestep != exp["timestep"] or snap.nparticle != exp["nparticle"]:
-                R.fail(f"{tag} frame {f}: timestep/nparticle {snap.timestep}/{snap.nparticle} != {exp['timestep']}/{exp['nparticle']}",
-                       sig=dict(sig, clause="frames"))
-                continue
-            if list(np.asarray(snap.particle_type)) != exp["particle_type"]:
-                R.fail(f"{tag} frame {f}: types by id {list(snap.particle_type)} != {exp['particle_type']}", sig=dict(sig, clause="types"))
-            pos = np.asarray(snap.positions, float)
-            ok = pos.shape == exp["positions"].shape
-            if ok:
-                dev = np.abs(pos - exp["positions"])
-                if case["style"] == "x" and not tri:
-                    # a wrapped coordinate exactly on a box face may be reported on either face (both are inside the box)
-                    lo_, hi_ = exp["boxbounds"][:, 0], exp["boxbounds"][:, 1]
-                    onface = (exp["positions"] == lo_) | (exp["positions"] == hi_)
-                    alt = np.minimum(np.abs(pos - lo_), np.abs(pos - hi_))
-                    dev = np.where(onface, alt, dev)
-                ok = bool((dev <= 1e-12).all())
-            if not ok:
-                clause = {"x": "wrap" if not tri else "positions", "xs": "scaled", "xu": "unwrapped"}[case["style"]]
-                R.fail(f"{tag} frame {f}: positions by id differ", sig=dict(sig, clause=clause), exp=exp["positions"], obs=pos)
-            for key in ("boxlength", "boxbounds", "hmatrix", "realbounds"):
-                got = getattr(snap, key)
-                want = exp[key]
-                if want is None:
-                    if got is not None:
-                        R.fail(f"{tag} frame {f}: {key} should be None for an orthogonal cell", sig=dict(sig, clause="cell_" + key))
-                    continue
-                if got is None or np.asarray(got).shape != want.shape or not np.allclose(np.asarray(got, float), want, rtol=0, atol=1e-12):
-                    R.fail(f"{tag} frame {f}: {key} differs", sig=dict(sig, clause="cell_" + key), exp=want, obs=got)
     R.outcome([[s.timestep, s.particle_type, s.positions, s.hmatrix] for s in s1.snapshots])
     R.elem = sum(e["nparticle"] for e in exps)
+    return R
+
+
+# ============================================================================================ C01.scale
+N_ALL = [10, 11, 99, 100, 101, 130, 257, 1000]
+F_ALL = [1, 10, 12]
+NF_LONG = [[10, 65], [11, 130], [3, 257]]  # many short frames (the frame loop is a size dimension too)
+NF_QUICK = [[10, 12], [11, 10], [99, 1], [100, 12], [101, 10], [130, 12], [257, 10], [1000, 12], [1000, 1], [10, 65], [3, 257]]
+
+
+def gen_scale(tier, seed):
+    """enumerates SIZES (particles x frames) with one fixed value pattern per size"""
+    if tier == "quick":
+        for n, F in NF_QUICK:
+            for d in (3, 2):
+                for cell in ("orth", "tri"):
+                    for k, style in enumerate(("x", "xs", "xu")):
+                        for order in ("affine", "desc"):
+                            aff = order == "affine"
+                            yield {"d": d, "cell": cell, "style": style, "N": n, "F": F, "order": order, "E": 12 if aff else 0, "blanks": aff,
+                                   "syntax": "sci" if (k + (d == 2) + aff) % 3 == 0 else "decimal", "vary": F > 1, "reread": F > 1 and n * F <= 2000}
+        return
+    for n, F in [[n, F] for n in N_ALL for F in F_ALL] + NF_LONG:
+        for d in (3, 2):
+            for cell in ("orth", "tri"):
+                for style in ("x", "xs", "xu"):
+                    for order in ("affine", "desc", "asc"):
+                        for E in (0, 3, 12):
+                            for syntax in ("decimal", "sci"):
+                                yield {"d": d, "cell": cell, "style": style, "N": n, "F": F, "order": order, "E": E, "blanks": E == 3 or order == "affine",
+                                       "syntax": syntax, "vary": F > 1 and not (order == "asc" and E == 0), "reread": F > 1 and n * F <= 2000}
+
+
+def run_scale(case):
+    from PyMatterSim.reader.dump_reader import DumpReader
+    from PyMatterSim.reader.lammps_reader_helper import read_lammps_wrapper
+    from PyMatterSim.reader.reader_utils import DumpFileType
+
+    R = Result()
+    d = case["d"]
+    tri = case["cell"] == "tri"
+    sig = {"d": d, "style": case["style"], "cell": case["cell"], "slice": "scale"}
+    texts, exps = c01x.build(case)
+
+    def read_both(frames_text):
+        with open("c01.dump", "w") as fh:
+            fh.write("".join(frames_text))
+        rd = DumpReader("c01.dump", ndim=d, filetype=DumpFileType.LAMMPS)
+        rd.read_onefile()
+        return rd.snapshots, read_lammps_wrapper("c01.dump", d)
+
+    s1, s2 = read_both(texts)
+    for tag, S in (("DumpReader", s1), ("wrapper", s2)):
+        if not compare(R, tag, S, exps, case["style"], tri, sig):
+            return R
+    R.elem = 2 * sum(e["nparticle"] for e in exps)
+    if case["reread"]:
+        # the same file name now holds the frames in reverse order (same length in bytes): a new input; the objects of the first read stay alive
+        t1, t2 = read_both(texts[::-1])
+        rs = dict(sig, reread=True)
+        for tag, S in (("DumpReader (file re-written)", t1), ("wrapper (file re-written)", t2)):
+            if not compare(R, tag, S, exps[::-1], case["style"], tri, rs):
+                return R
+        for tag, S in (("DumpReader (first result after a second read)", s1), ("wrapper (first result after a second read)", s2)):
+            compare(R, tag, S, exps, case["style"], tri, rs)
+        R.elem *= 3
+    R.outcome([[int(s.timestep), int(s.nparticle), digest(np.ascontiguousarray(s.positions)), digest(np.ascontiguousarray(s.particle_type))]
+               for s in s1.snapshots])
+    R.nontrivial = max(e["nparticle"] for e in exps) >= 10 or len(exps) >= 10
     return R
 
 
@@ -214,4 +294,13 @@ def subs(tier, seed):
             rule="one particle at every fractional coordinate {0,1/4,1/2,3/4,1}^d (plus excursions {-1/4,5/4} on every axis combination for "
                  "wrapped style in orthogonal cells) x all cells x styles"),
         Sub("C01.vary", gen_vary, run, rule="three frames whose cell (size and origin) or particle count changes from frame to frame"),
+        Sub("C01.scale", gen_scale, run_scale,
+            rule="SCALE slice - enumerates sizes, one fixed value pattern per size: N in {10,11,99,100,101,130,257,1000} x F in {1,10,12} (thorough: full "
+                 "product + many-frame files (N,F) = (10,65),(11,130),(3,257); quick: 11 (N,F) pairs) x {2D,3D} x {orthogonal non-zero origin, triclinic} "
+                 "x {x (one-box excursions),xs,xu} x line order {i->(a i+b) mod N with another a,b per frame, descending, ascending} x trailing columns "
+                 "{0,3,12} x {decimal,%.16e} x LAMMPS end-of-line blanks; in every multi-frame file positions, types by id (1/2/3-digit labels), "
+                 "particle count (N+{0,1,-1,3,0,-2,5}), edge lengths, tilts (signs too) and origin differ from frame to frame; timesteps up to 13 "
+                 "digits across 2^31; small files are re-written frame-reversed under the same name (same byte size) and read again while the first "
+                 "result is kept and re-compared; every field of every snapshot compared; non-trivial = some frame has >= 10 atoms or the file >= 10 frames",
+            bounds={"Nmax": 1000, "Fmax": 257, "pairs": len(NF_QUICK) if tier == "quick" else len(N_ALL) * len(F_ALL) + len(NF_LONG)}),
     ]
